@@ -553,6 +553,10 @@ func (in *Interp) visit(fr *frame, instr ssa.Instruction) continuation {
 		in.chanSend(ch, in.get(fr, instr.X))
 
 	case *ssa.Store:
+		if sp, ok := in.get(fr, instr.Addr).(*SymPtr); ok {
+			in.storeSym(sp, in.get(fr, instr.Val))
+			break
+		}
 		addr := in.get(fr, instr.Addr).(*Value)
 		if addr == nil {
 			in.targetPanicMsg("invalid memory address or nil pointer dereference")
@@ -634,6 +638,14 @@ func (in *Interp) visit(fr *frame, instr ssa.Instruction) continuation {
 		}
 
 	case *ssa.FieldAddr:
+		if sp, ok := in.get(fr, instr.X).(*SymPtr); ok {
+			np := &SymPtr{}
+			for _, c := range sp.C {
+				np.C = append(np.C, symCand{&(*c.p).(Struct)[instr.Field], c.g})
+			}
+			fr.env[instr] = np
+			break
+		}
 		p := in.get(fr, instr.X).(*Value)
 		if p == nil {
 			in.targetPanicMsg("invalid memory address or nil pointer dereference")
@@ -645,8 +657,48 @@ func (in *Interp) visit(fr *frame, instr ssa.Instruction) continuation {
 
 	case *ssa.IndexAddr:
 		x := in.get(fr, instr.X)
+		if sp, ok := x.(*SymPtr); ok {
+			// pointer-to-array candidates
+			idx := ext64(in.get(fr, instr.Index).(*sym.Term), Signed(instr.Index.Type()))
+			n := len((*sp.C[0].p).(Array))
+			if len(sp.C)*n <= maxSymPtr {
+				if idx.IsConst() {
+					if idx.Int() < 0 || idx.Int() >= int64(n) {
+						in.targetPanicMsg("index out of range")
+					}
+				} else if !in.decide(sym.ULt(idx, sym.BV(uint64(n), 64))) {
+					in.targetPanicMsg("index out of range [symbolic]")
+				}
+				np := &SymPtr{}
+				for _, c := range sp.C {
+					a := (*c.p).(Array)
+					if idx.IsConst() {
+						np.C = append(np.C, symCand{&a[idx.Int()], c.g})
+					} else {
+						np.C = append(np.C, symIndex(a, idx, c.g)...)
+					}
+				}
+				fr.env[instr] = np
+				break
+			}
+			x = in.ptr(sp)
+		}
+		symbolicIdx := func(base []Value) bool {
+			idx := ext64(in.get(fr, instr.Index).(*sym.Term), Signed(instr.Index.Type()))
+			if idx.IsConst() || len(base) == 0 || len(base) > maxSymPtr || in.P.Cfg.NoSymPtr {
+				return false
+			}
+			if !in.decide(sym.ULt(idx, sym.BV(uint64(len(base)), 64))) {
+				in.targetPanicMsg(fmt.Sprintf("index out of range [symbolic] with length %d", len(base)))
+			}
+			fr.env[instr] = &SymPtr{C: symIndex(base, idx, nil)}
+			return true
+		}
 		switch x := x.(type) {
 		case []Value:
+			if symbolicIdx(x) {
+				break
+			}
 			i := in.indexValue(in.get(fr, instr.Index), instr.Index.Type(), len(x))
 			fr.env[instr] = &x[i]
 		case *Value:
@@ -654,6 +706,9 @@ func (in *Interp) visit(fr *frame, instr ssa.Instruction) continuation {
 				in.targetPanicMsg("invalid memory address or nil pointer dereference")
 			}
 			a := (*x).(Array)
+			if symbolicIdx(a) {
+				break
+			}
 			i := in.indexValue(in.get(fr, instr.Index), instr.Index.Type(), len(a))
 			fr.env[instr] = &a[i]
 		default:
